@@ -84,6 +84,8 @@ def run(ctx):
                 if names[0] in ('masking_nonce', 'masked_response'):
                     rep.ob('R04.2', 'response leaf %s feeds the unmasking' % '.'.join(names), dec is not None and contains(dec, path_term(RESP, names)),
                            'unmasked key bytes = %s' % show(dec)[:300], w, sn)
+        # R04.6 the encodings under which leaves enter the preamble are the dependency codecs themselves (injective on accepted bytes)
+        an.group_codec_purity(ctx, rep, 'R04.6', sn)
         # R04.4 reflection
         for which, a_side, b_side in (('clog_finish', ['self'], ['response', 'evaluation_element']),
                                       ('creg_finish', ['self'], ['response', 'evaluation_element'])):
